@@ -65,9 +65,10 @@ def gen_r3(rng):
     return {"kind": "r3", "p": p, "ci": ci, "alpha": enc(Fraction(rng.choice([0.05, 0.1, 0.25, 0.5]))), "n": n}
 
 
-def gen_agg(rng):
-    m = rng.randint(1, 7)
-    style = rng.choice(["random", "random", "nested", "degenerate", "touching"])
+def gen_agg(rng, m=None):
+    long_ = m is not None
+    m = m or rng.randint(1, 7)
+    style = rng.choice(["random", "random", "nested", "degenerate", "touching"]) if not long_ else rng.choice(["random", "wide"])
     x, dxp, dyp = [], [], []
     for j in range(m):
         c = Fraction(rng.randint(0, 16), 16)
@@ -78,6 +79,10 @@ def gen_agg(rng):
         elif style == "touching":
             a, b = Fraction(j, m), Fraction(j + 1, m)
             c = rng.choice([a, b])
+        elif style == "wide":     # long sequences: early rectangles are wide and cover many later points
+            c = Fraction(rng.randint(0, 64), 64)
+            w = Fraction(rng.randint(8, 24), 64) if j < m // 3 else Fraction(rng.randint(0, 2), 64)
+            a, b = max(Fraction(0), c - w), min(Fraction(1), c + w)
         else:
             a, b = sorted([Fraction(rng.randint(0, 16), 16), Fraction(rng.randint(0, 16), 16)])
             if rng.random() < 0.7:
@@ -175,6 +180,9 @@ def gen_cases(rng, tier):
         k += 1
     for j in range(n_small):
         cases.append(gen_r3(rng) if j % 2 else gen_agg(rng))
+    # long rectangle sequences (more points than any internal block size is likely to be)
+    for _ in range({"quick": 2, "thorough": 8, "search": 4}.get(tier, 2)):
+        cases.append(gen_agg(rng, m=rng.choice([257, 300, 520, 600])))
     return cases
 
 
